@@ -1,7 +1,10 @@
 """C11 — holes stay holes (which ranges are written is proved; allocation is observed)."""
 import os
+import shutil
 
+import core
 import datapath
+import xcp
 import fsutil
 from datapath import Case
 
@@ -86,6 +89,72 @@ def nontrivial(case, o):
 def run(ctx, out):
     out.rule = ("sparse ext4 files with holes >= 1 MiB (leading, trailing, interleaved, empty, 41 extents = two FIEMAP pages), "
                 "block sizes below/above segment sizes, both drivers, workers 1..16, fresh and fully allocated prior "
-                "destinations; non-trivial = the source is classified sparse by st_blocks; distinct = distinct case tuple")
+                "destinations; plus runs over FIVE sparse files at once (tree and multi-source) in which FIEMAP / FICLONE / "
+                "copy_file_range is refused for one of them: the others must stay sparse; non-trivial = the source is classified "
+                "sparse by st_blocks; distinct = distinct case tuple")
     out.assumptions.append("C11: block allocation by ext4 for the written ranges is observed (st_blocks), not proved")
     datapath.run_cases(ctx, out, gen(ctx), "C11", oracle, nontrivial, batch=32)
+    run_many(ctx, out)
+
+
+def run_many(ctx, out):
+    """Several sparse files in ONE invocation (tree and multi-source forms): what one file's extent map / clone /
+    kernel-copy call answered must not change how the OTHERS are copied.  The supervisor refuses FIEMAP (EOPNOTSUPP),
+    FICLONE (EOPNOTSUPP / EXDEV) or copy_file_range (EXDEV) for ONE chosen file; every other file must still come out
+    sparse and identical; the chosen one must be identical (it may be materialised: no hole detection for it)."""
+    rng = ctx.rng
+    quick = ctx.tier == "quick"
+    sup = core.build_sup()
+    d0 = ctx.work.fresh("c11many")
+    shapes = [(4 * MiB, [(0, B)]), (6 * MiB, [(0, 2 * B), (2 * MiB, 2 * MiB + 3 * B), (5 * MiB, 5 * MiB + B)]),
+              (8 * MiB, []), (3 * MiB + 5, [(MiB, MiB + B), (2 * MiB + B, 2 * MiB + 2 * B)]), (5 * MiB, [(4 * MiB, 5 * MiB)])]
+    k = 0
+    for driver in ("parblock", "parfile"):
+        for form in ("tree", "multi"):
+            for what in ("fiemap", "ficlone-EOPNOTSUPP", "ficlone-EXDEV", "cfr-EXDEV", "none"):
+                for victim in ((0, 1, 3) if not quick else (0, rng.choice([1, 2, 3]))):
+                    if quick and what in ("ficlone-EXDEV", "none") and victim != 0:
+                        continue
+                    k += 1
+                    d = os.path.join(d0, "m%d" % k)
+                    os.makedirs(os.path.join(d, "src"))
+                    names = ["a0", "b1", "c2", "d3", "e4"]
+                    for i, nm in enumerate(names):
+                        size, data = shapes[(i + k) % len(shapes)]
+                        fsutil.make_file(os.path.join(d, "src", nm), size, data, tag=k * 8 + i + 1, sync=True)
+                    vpath = os.path.join(d, "src", names[victim])
+                    rules = {"fiemap": [("fail", 95, 0, "ioctl", 0, "=" + vpath)],
+                             "ficlone-EOPNOTSUPP": [("fail", 95, 0, "ioctl", 0, "=" + os.path.join(d, "dst", names[victim]))],
+                             "ficlone-EXDEV": [("fail", 18, 0, "ioctl", 0, "=" + os.path.join(d, "dst", names[victim]))],
+                             "cfr-EXDEV": [("fail", 18, 0, "copy_file_range", 0, "=" + vpath)],
+                             "none": []}[what]
+                    w = rng.choice([1, 2, 4])
+                    bs = rng.choice(["4096", "65536", "1MB"])
+                    if form == "tree":
+                        argv = [ctx.bins["xcp"], "-r", "-T", "--driver", driver, "-w", str(w), "--block-size", bs, "src", "dst"]
+                    else:
+                        os.makedirs(os.path.join(d, "dst"))
+                        argv = [ctx.bins["xcp"], "--driver", driver, "-w", str(w), "--block-size", bs] + \
+                            [os.path.join("src", nm) for nm in names] + ["dst"]
+                    r = xcp.run_supervised(sup, argv, d, d, rules=rules, tag="m", timeout_ms=60000)
+                    fired = any(e.get("inj") for e in r.trace)
+                    out.case(("many", driver, form, what, victim, w, bs), nontrivial=True)
+                    out.count("many_" + what + ("" if fired or what == "none" else "_not_reached"))
+                    rep = dict(argv=argv[1:], rules=rules, refused_for=names[victim], what=what, exit=r.exit, stderr=r.stderr[-300:])
+                    if r.exit != 0:
+                        out.violation("copy of five sparse files failed (exit %d) with %s refused for one of them" % (r.exit, what), rep)
+                    else:
+                        for i, nm in enumerate(names):
+                            sp, dp = os.path.join(d, "src", nm), os.path.join(d, "dst", nm)
+                            if not os.path.exists(dp) or not datapath.files_equal(sp, dp):
+                                out.violation("file %s differs / is missing after exit 0 (%s refused for %s)" % (nm, what, names[victim]), rep)
+                                break
+                            if i == victim and what == "fiemap":
+                                continue      # no hole detection for this one
+                            sb, db = os.stat(sp).st_blocks, os.stat(dp).st_blocks
+                            nr = max(1, len(shapes[(i + k) % len(shapes)][1]))
+                            if db > sb + (8 * nr + 16) * (B // 512):
+                                out.violation("holes of %s were materialised (%d bytes allocated for %d in the source) after %s was "
+                                              "refused for ANOTHER file (%s) of the same run" % (nm, db * 512, sb * 512, what, names[victim]), rep)
+                                break
+                    shutil.rmtree(d, ignore_errors=True)
